@@ -333,10 +333,10 @@ class ReaderStreamSuite(Suite):
         _, model_v, spec_v, disk_plan = coq_val
         img = case["img"]
         if fmt == "vhd":
-            fh = c04.build_image(img)
+            disk = core.materialise(core.plan_of(disk_plan), file=c04.build_image(img))[:img["size"]]
         else:
-            fh = self._suite(case).build_files(img)["file"]
-        disk = core.materialise(core.plan_of(disk_plan), file=fh)[:img["size"]]
+            s = self._suite(case)
+            disk = s.materialiser(img, s.build_files(img))(core.plan_of(disk_plan))[:img["size"]]
         if len(disk) != img["size"]:
             return [Finding("coq_error", f"whole-disk spec plan has {len(disk)} bytes, disk {img['size']}")]
         return compare_history(case["ops"], impl_res, model_v, spec_v, lambda s, l: disk[s:s + l], fmt)
